@@ -102,6 +102,15 @@ for _name in ["stars", "star-words", "underscore-nest", "alternating-delims", "t
 FAMILIES["link-around-star-run"] = lambda L: "[a " + "*" * L + " b](/u)"
 FAMILIES["image-around-underscore-run"] = lambda L: "![a " + "_" * L + " b](/u)"
 
+# the same openers spread over the lines of ONE paragraph: guards that jump "to the end" must mean the end of the
+# paragraph, not of the line
+FAMILIES["open-images-lines"] = lambda L: rep_to("![\n", L)
+FAMILIES["open-brackets-lines"] = lambda L: rep_to("[\n", L)
+FAMILIES["full-ref-openers-lines"] = lambda L: rep_to("[x][\n", L, tail="\n\n[x]: /u\n")
+FAMILIES["image-ref-openers-lines"] = lambda L: rep_to("![x][\n", L, tail="\n\n[x]: /u\n")
+FAMILIES["unclosed-link-open-lines"] = lambda L: rep_to("[a](\n", L)
+FAMILIES["backtick-opener-lines"] = lambda L: "[" + rep_to("`a\n``b\n", L)
+
 FAMILIES["table-autocomplete"] = lambda L: "|a" * (L // 7) + "|\n" + "|-" * (L // 7) + "|\n" + "|c\n" * (L // 7)
 KNOWN_QUADRATIC = {"refdefs": "family:refdefs", "quote-heading-lazy": "family:quote-heading-lazy", "table-autocomplete": "family:table-autocomplete"}
 
